@@ -1,6 +1,6 @@
 CONSTANTS
   MaxText = 4
-  Depth = 4
+  Depth = 3
   Slices = FALSE
 SPECIFICATION Spec
 INVARIANTS AnswerIsDeclarative IndexIsConsistent LinesRejoin EmitCase
